@@ -6,6 +6,8 @@
 #include <inttypes.h>
 #include "nanoisa/isa.h"
 #include "nanoisa/nvm_format.h"
+#include "nanoisa/assembler.h"
+#include "nanoisa/disassembler.h"
 
 static int hexv(int c) {
     if (c >= '0' && c <= '9') return c - '0';
@@ -226,6 +228,24 @@ static void do_flipall(char *arg) {
     free(b);
 }
 
+/* every non-zero error pattern confined to one byte (all aligned bursts of <= 8 bits), every body byte */
+static void do_bytexor(char *arg) {
+    size_t n; uint8_t *b = unhex(arg, &n);
+    if (!b) { puts("bad-op"); return; }
+    size_t tries = 0, acc = 0; char first[64] = "-";
+    for (size_t i = NVM_HEADER_SIZE; i < n; i++) {
+        for (unsigned x = 1; x < 256; x++) {
+            b[i] ^= (uint8_t)x;
+            NvmModule *m = nvm_deserialize(b, (uint32_t)n);
+            if (m) { acc++; if (first[0] == '-') snprintf(first, sizeof first, "%zu:%u", i, x); nvm_module_free(m); }
+            b[i] ^= (uint8_t)x;
+            tries++;
+        }
+    }
+    printf("bytexor=%zu accepted=%zu first=%s\n", tries, acc, first);
+    free(b);
+}
+
 static void do_truncall(char *arg) {
     size_t n; uint8_t *b = unhex(arg, &n);
     if (!b) { puts("bad-op"); return; }
@@ -264,6 +284,62 @@ static void do_bursts(char *arg) {
     free(b);
 }
 
+/* ---- text form: assemble(disassemble(m)) must give back code, functions and strings ---- */
+static void do_asmrt(char *arg) {
+    size_t n; uint8_t *b = unhex(arg, &n);
+    if (!b) { puts("bad-op"); return; }
+    NvmModule *m = nvm_deserialize(b, (uint32_t)n);
+    free(b);
+    if (!m) { puts("loaderr"); return; }
+    char *txt = disasm_module(m);
+    if (!txt) { puts("disasm-null"); nvm_module_free(m); return; }
+    AsmResult r; memset(&r, 0, sizeof r);
+    NvmModule *m2 = asm_assemble(txt, &r);
+    if (!m2) {
+        for (char *q = r.message; *q; q++) if (*q == '\n' || *q == ' ') *q = '_';
+        printf("asmerr %d line=%u %s\n", (int)r.error, r.line, r.message);
+        free(txt); nvm_module_free(m); return;
+    }
+    const char *why = NULL; char buf[128];
+    if (m2->code_size != m->code_size) { snprintf(buf, sizeof buf, "code_size_%u_vs_%u", m->code_size, m2->code_size); why = buf; }
+    else if (memcmp(m2->code, m->code, m->code_size) != 0) {
+        uint32_t k = 0; while (m->code[k] == m2->code[k]) k++;
+        snprintf(buf, sizeof buf, "code_byte_at_%u", k); why = buf;
+    }
+    if (!why && m2->function_count != m->function_count) { snprintf(buf, sizeof buf, "function_count_%u_vs_%u", m->function_count, m2->function_count); why = buf; }
+    for (uint32_t i = 0; !why && i < m->function_count; i++) {
+        const NvmFunctionEntry *f = &m->functions[i], *g = &m2->functions[i];
+        const char *fn1 = nvm_get_string(m, f->name_idx), *fn2 = nvm_get_string(m2, g->name_idx);
+        if (f->arity != g->arity || f->code_offset != g->code_offset || f->code_length != g->code_length ||
+            f->local_count != g->local_count || f->upvalue_count != g->upvalue_count || !fn1 || !fn2 || strcmp(fn1, fn2) != 0) {
+            snprintf(buf, sizeof buf, "function_%u", i); why = buf;
+        }
+    }
+    if (!why && m2->string_count != m->string_count) { snprintf(buf, sizeof buf, "string_count_%u_vs_%u", m->string_count, m2->string_count); why = buf; }
+    for (uint32_t i = 0; !why && i < m->string_count; i++)
+        if (m->string_lengths[i] != m2->string_lengths[i] || memcmp(m->strings[i], m2->strings[i], m->string_lengths[i]) != 0) {
+            snprintf(buf, sizeof buf, "string_%u", i); why = buf;
+        }
+    if (!why && ((m->header.flags & NVM_FLAG_HAS_MAIN) != (m2->header.flags & NVM_FLAG_HAS_MAIN) ||
+                 ((m->header.flags & NVM_FLAG_HAS_MAIN) && m->header.entry_point != m2->header.entry_point))) why = "entry";
+    if (why) {
+        /* same module up to the order in which function bodies are laid out in the code section? */
+        int relaid = (m2->function_count == m->function_count && m2->string_count == m->string_count && m2->code_size == m->code_size);
+        for (uint32_t i = 0; relaid && i < m->string_count; i++)
+            if (m->string_lengths[i] != m2->string_lengths[i] || memcmp(m->strings[i], m2->strings[i], m->string_lengths[i]) != 0) relaid = 0;
+        for (uint32_t i = 0; relaid && i < m->function_count; i++) {
+            const NvmFunctionEntry *f = &m->functions[i], *g = &m2->functions[i];
+            if (f->name_idx != g->name_idx || f->arity != g->arity || f->code_length != g->code_length ||
+                f->local_count != g->local_count || f->upvalue_count != g->upvalue_count) { relaid = 0; break; }
+            if (f->code_offset > m->code_size || f->code_length > m->code_size - f->code_offset ||
+                g->code_offset > m2->code_size || g->code_length > m2->code_size - g->code_offset) { relaid = 0; break; }
+            if (memcmp(m->code + f->code_offset, m2->code + g->code_offset, f->code_length) != 0) relaid = 0;
+        }
+        if (relaid) puts("relaid"); else printf("diff %s\n", why);
+    } else puts("same");
+    free(txt); nvm_module_free(m); nvm_module_free(m2);
+}
+
 int main(void) {
     char *line = NULL; size_t cap = 0; ssize_t len;
     while ((len = getline(&line, &cap, stdin)) > 0) {
@@ -278,8 +354,10 @@ int main(void) {
         else if (!strcmp(line, "crc")) do_crc(arg);
         else if (!strcmp(line, "nvm.load")) do_load(arg);
         else if (!strcmp(line, "nvm.ser")) do_ser(arg);
+        else if (!strcmp(line, "asm.rt")) do_asmrt(arg);
         else if (!strcmp(line, "nvm.flipall")) do_flipall(arg);
         else if (!strcmp(line, "nvm.truncall")) do_truncall(arg);
+        else if (!strcmp(line, "nvm.bytexor")) do_bytexor(arg);
         else if (!strcmp(line, "nvm.bursts")) do_bursts(arg);
         else puts("bad-op");
     }
